@@ -625,23 +625,44 @@ theorem collectVote_quorum_run (k : Keys) (c : RCfg) (s : RState) (id i bytes : 
 
 /-! ## leaving a view on a certificate; proposing -/
 
-/-- the state after `advanceView` has left view `s.view` on the certificate `q` of stored block `nb`
-(before the new leader proposes / the new-view message is sent) -/
+/-- the state after `advanceView` has left view `s.view` on the certificate `q` of stored block `nb`, for
+the view AFTER THE CERTIFICATE (`EnterViewAfter`; before the new leader proposes / the new-view message
+is sent) -/
+def jumpedS (s : RState) (q : QC) (nb : Block) : RState :=
+  { updHighQC s q nb with
+    view := q.view + 1, lastTimeout := none,
+    ghost := s.ghost ++ [.adv s.view q.view false],
+    queue := s.queue ++ [.viewChange (q.view + 1) false] }
+
+/-- **`advanceView` on a verified QC of ANY view `≥` the current one**: the replica enters `q.view + 1` -/
+theorem advanceView_jump (k : Keys) (c : RCfg) (s : RState) (q : QC) (nb : Block) (ha : c.agg = false)
+    (hqc : verifyQC (env k c s) q = true) (hnb : s.chain.blocks.lookup q.hash = some nb) (hv : s.view ≤ q.view) :
+    (advanceView k c { qc := some q }).run s =
+      (if c.leader (q.view + 1) = c.id then createAndPropose k c { qc := some (updHighQC s q nb).highQC }
+       else emit (.sendNewView (c.leader (q.view + 1)) { qc := some (updHighQC s q nb).highQC })).run (jumpedS s q nb) := by
+  have hv' : ¬ q.view < s.view := by omega
+  by_cases hl : c.leader (q.view + 1) = c.id
+  · simp [advanceView, verifySyncInfo, ha, verifyQCM_true k c s q hqc, getBlock_local _ _ _ hnb, updHighQC, hv', jumpedS, hl, addEvent]
+  · simp [advanceView, verifySyncInfo, ha, verifyQCM_true k c s q hqc, getBlock_local _ _ _ hnb, updHighQC, hv', jumpedS, hl, addEvent]
+
+/-- the state after `advanceView` has left view `s.view` on the certificate `q` OF THAT VIEW, of stored
+block `nb` (before the new leader proposes / the new-view message is sent) -/
 def movedS (s : RState) (q : QC) (nb : Block) : RState :=
   { updHighQC s q nb with
     view := s.view + 1, lastTimeout := none,
     ghost := s.ghost ++ [.adv s.view q.view false],
     queue := s.queue ++ [.viewChange (s.view + 1) false] }
 
+theorem jumpedS_eq_movedS (s : RState) (q : QC) (nb : Block) (hv : s.view = q.view) : jumpedS s q nb = movedS s q nb := by
+  simp [jumpedS, movedS, hv]
+
+/-- the certificate is for the current view (the happy path, recovery, the chain): the next view -/
 theorem advanceView_move (k : Keys) (c : RCfg) (s : RState) (q : QC) (nb : Block) (ha : c.agg = false)
-    (hqc : verifyQC (env k c s) q = true) (hnb : s.chain.blocks.lookup q.hash = some nb) (hv : s.view ≤ q.view) :
+    (hqc : verifyQC (env k c s) q = true) (hnb : s.chain.blocks.lookup q.hash = some nb) (hv : s.view = q.view) :
     (advanceView k c { qc := some q }).run s =
       (if c.leader (s.view + 1) = c.id then createAndPropose k c { qc := some (updHighQC s q nb).highQC }
        else emit (.sendNewView (c.leader (s.view + 1)) { qc := some (updHighQC s q nb).highQC })).run (movedS s q nb) := by
-  have hv' : ¬ q.view < s.view := by omega
-  by_cases hl : c.leader (s.view + 1) = c.id
-  · simp [advanceView, verifySyncInfo, ha, verifyQCM_true k c s q hqc, getBlock_local _ _ _ hnb, updHighQC, hv', movedS, hl, addEvent]
-  · simp [advanceView, verifySyncInfo, ha, verifyQCM_true k c s q hqc, getBlock_local _ _ _ hnb, updHighQC, hv', movedS, hl, addEvent]
+  rw [advanceView_jump k c s q nb ha hqc hnb (Nat.le_of_eq hv), jumpedS_eq_movedS s q nb hv, ← hv]
 
 /-- the block `createAndPropose` makes in view `view` with command number `nextCmd` on certificate `qc` -/
 def mkBlock (c : RCfg) (view nextCmd : Nat) (qc : QC) : Block :=
@@ -968,7 +989,7 @@ theorem step_vote_quorum_proposes (k : Keys) (c : RCfg) (s : RState) (id i bytes
     have : ¬ blk.view ≤ s.highQC.view := by omega
     simp [m, movedS, updHighQC, sC, sB, qcFormedS, sA, s0, this]
   have hadv : (advanceView k c { qc := some qc }).run sC = pure ((), s7) := by
-    rw [advanceView_move k c sC qc blk ha hqc hblk (by show s.view ≤ blk.view; omega)]
+    rw [advanceView_move k c sC qc blk ha hqc hblk (by show s.view = blk.view; omega)]
     rw [if_pos (by exact hlead)]
     rw [show (updHighQC sC qc blk).highQC = qc from hmhq]
     rw [createAndPropose_run k c m qc blk none hs hr (by rw [hmhq]; exact hblk) (hmark m rfl rfl)
@@ -1045,26 +1066,46 @@ theorem advanceView_old (k : Keys) (c : RCfg) (s : RState) (q : QC) (nb : Block)
   · simp [advanceView, verifySyncInfo, ha, verifyTCM_run, htc, verifyQCM_true_chain k c s q hqc, getBlock_local_chain _ _ _ hnb,
       absorbS, hv1, hv2, hge]
 
-/-- the state after `advanceView` has left view `s.view` on the timeout certificate `tc` -/
+/-- the state after `advanceView` has left view `s.view` on the timeout certificate `tc`, for the view after
+the certificate's (`EnterViewAfter`) -/
+def jumpedTS (s : RState) (tc : TC) : RState :=
+  { s with highTC := if tc.view > s.highTC.view then tc else s.highTC,
+           view := tc.view + 1, lastTimeout := none,
+           ghost := s.ghost ++ [.adv s.view tc.view true],
+           queue := s.queue ++ [.viewChange (tc.view + 1) true] }
+
+/-- **`advanceView` on a verified TC of ANY view `≥` the current one**: the replica enters `tc.view + 1` -/
+theorem advanceView_tc_jump (k : Keys) (c : RCfg) (s : RState) (tc : TC) (nb : Block) (ha : c.agg = false)
+    (htc : verifyTC (env k c s) tc = true) (hqc : verifyQC (env k c s) s.highQC = true)
+    (hnb : s.chain.blocks.lookup s.highQC.hash = some nb) (hv1 : s.view ≤ tc.view) (hv2 : s.highQC.view < tc.view) :
+    (advanceView k c { qc := some s.highQC, tc := some tc }).run s =
+      (if c.leader (tc.view + 1) = c.id then createAndPropose k c { qc := some s.highQC, tc := some tc }
+       else emit (.sendNewView (c.leader (tc.view + 1)) { qc := some s.highQC, tc := some tc })).run (jumpedTS s tc) := by
+  have h1 : ¬ tc.view < s.view := by omega
+  have h2 : ¬ s.highQC.view ≥ tc.view := by omega
+  by_cases hl : c.leader (tc.view + 1) = c.id
+  · simp [advanceView, verifySyncInfo, ha, verifyTCM_run, htc, verifyQCM_true_chain k c s _ hqc, getBlock_local_chain _ _ _ hnb,
+      jumpedTS, h1, h2, hl, addEvent]
+  · simp [advanceView, verifySyncInfo, ha, verifyTCM_run, htc, verifyQCM_true_chain k c s _ hqc, getBlock_local_chain _ _ _ hnb,
+      jumpedTS, h1, h2, hl, addEvent]
+
+/-- the state after `advanceView` has left view `s.view` on the timeout certificate `tc` OF THAT VIEW -/
 def movedTS (s : RState) (tc : TC) : RState :=
   { s with highTC := if tc.view > s.highTC.view then tc else s.highTC,
            view := s.view + 1, lastTimeout := none,
            ghost := s.ghost ++ [.adv s.view tc.view true],
            queue := s.queue ++ [.viewChange (s.view + 1) true] }
 
+theorem jumpedTS_eq_movedTS (s : RState) (tc : TC) (hv : s.view = tc.view) : jumpedTS s tc = movedTS s tc := by
+  simp [jumpedTS, movedTS, hv]
+
 theorem advanceView_tc_move (k : Keys) (c : RCfg) (s : RState) (tc : TC) (nb : Block) (ha : c.agg = false)
     (htc : verifyTC (env k c s) tc = true) (hqc : verifyQC (env k c s) s.highQC = true)
-    (hnb : s.chain.blocks.lookup s.highQC.hash = some nb) (hv1 : s.view ≤ tc.view) (hv2 : s.highQC.view < tc.view) :
+    (hnb : s.chain.blocks.lookup s.highQC.hash = some nb) (hv1 : s.view = tc.view) (hv2 : s.highQC.view < tc.view) :
     (advanceView k c { qc := some s.highQC, tc := some tc }).run s =
       (if c.leader (s.view + 1) = c.id then createAndPropose k c { qc := some s.highQC, tc := some tc }
        else emit (.sendNewView (c.leader (s.view + 1)) { qc := some s.highQC, tc := some tc })).run (movedTS s tc) := by
-  have h1 : ¬ tc.view < s.view := by omega
-  have h2 : ¬ s.highQC.view ≥ tc.view := by omega
-  by_cases hl : c.leader (s.view + 1) = c.id
-  · simp [advanceView, verifySyncInfo, ha, verifyTCM_run, htc, verifyQCM_true_chain k c s _ hqc, getBlock_local_chain _ _ _ hnb,
-      movedTS, h1, h2, hl, addEvent]
-  · simp [advanceView, verifySyncInfo, ha, verifyTCM_run, htc, verifyQCM_true_chain k c s _ hqc, getBlock_local_chain _ _ _ hnb,
-      movedTS, h1, h2, hl, addEvent]
+  rw [advanceView_tc_jump k c s tc nb ha htc hqc hnb (Nat.le_of_eq hv1) hv2, jumpedTS_eq_movedTS s tc hv1, ← hv1]
 
 
 theorem signedBy_of_accepted (T : Truth) (cfg : Cfg) (t : TimeoutMsg) (h : HsVerif.Props.C08.Accepted T cfg t) :
@@ -1099,7 +1140,7 @@ theorem onRemoteTimeout_quorum_run (k : Keys) (c : RCfg) (s : RState) (t : Timeo
   obtain ⟨hsb, vs, hvs, hver⟩ := signedBy_of_accepted _ _ t hacc
   have h1 := advanceView_old k c s q nb tc0 ha htc0 hq hnb hv1 hv2
   have h2 := advanceView_tc_move k c { absorbS s q nb tc0 with timeouts := ts' } ⟨some sg, t.view⟩ hb ha htc hhq hhb
-    (by show s.view ≤ t.view; omega) (by show _ < t.view; rw [htv]; exact hhv)
+    (by show s.view = t.view; omega) (by show _ < t.view; rw [htv]; exact hhv)
   have htv0' : (t.view == 0) = false := by simpa using htv0
   rw [hvs] at hsb
   have hts : (absorbS s q nb tc0).timeouts = s.timeouts := rfl
